@@ -556,6 +556,18 @@ func propC11(c *Ctx) {
 							tr = append(tr, a...)
 						}
 					}
+				} else if call, isCall := t.(*ssa.Call); isCall {
+					// a set type's method: the edges on which it says "already there" (has → true, add → false)
+					if pres, ok := presentRet(staticCallee(call), 0); ok {
+						a, b := boolEdges(v)
+						if pres {
+							tr = a
+						} else {
+							tr = b
+						}
+					} else {
+						tr, _ = boolEdges(v)
+					}
 				} else {
 					tr, _ = boolEdges(v)
 				}
@@ -957,4 +969,83 @@ func reprOf(v ssa.Value, d int) string {
 		return out
 	}
 	return v.Type().String()
+}
+
+// presentRet: h(set, name) reports membership of name in a map it is given (or is a method of):
+// the boolean it answers when the name is ALREADY there (has → true; add, "was it new" → false).
+func presentRet(h *ssa.Function, d int) (bool, bool) {
+	if h == nil || h.Blocks == nil || !isRepoFunc(h) || d > 2 || h.Signature.Results().Len() != 1 || !isBoolType(h.Signature.Results().At(0).Type()) {
+		return false, false
+	}
+	isParam := func(v ssa.Value) bool {
+		p, ok := stripConv(v).(*ssa.Parameter)
+		return ok && p.Parent() == h
+	}
+	var present []Edge
+	var okVals []ssa.Value
+	allInstrs(h, func(in ssa.Instruction) {
+		switch x := in.(type) {
+		case *ssa.Lookup:
+			if !x.CommaOk || !isParam(x.Index) {
+				return
+			}
+			for _, ref := range *x.Referrers() {
+				if e, ok := ref.(*ssa.Extract); ok && e.Index == 1 {
+					t, _ := boolEdges(e)
+					present = append(present, t...)
+					okVals = append(okVals, e)
+				}
+			}
+		case *ssa.Call:
+			if len(x.Call.Args) == 0 || !isParam(x.Call.Args[len(x.Call.Args)-1]) {
+				return
+			}
+			if pres, ok := presentRet(staticCallee(x), d+1); ok {
+				t, f := boolEdges(x)
+				if pres {
+					present = append(present, t...)
+					okVals = append(okVals, x)
+				} else {
+					present = append(present, f...)
+				}
+			}
+		}
+	})
+	if len(present) == 0 && len(okVals) == 0 {
+		return false, false
+	}
+	var onPresent, other []bool
+	for _, r := range returnsOf(h) {
+		for _, lf := range phiLeaves(returnValues(r)[0]) {
+			for _, ov := range okVals {
+				if lf.Val == ov {
+					return true, true // hands the found flag on
+				}
+			}
+			k, isK := lf.Val.(*ssa.Const)
+			if !isK || k.Value == nil {
+				return false, false
+			}
+			val := k.Value.String() == "true"
+			if guardedByEdges(h, r, present) {
+				onPresent = append(onPresent, val)
+			} else {
+				other = append(other, val)
+			}
+		}
+	}
+	if len(onPresent) == 0 {
+		return false, false
+	}
+	for _, v := range onPresent {
+		if v != onPresent[0] {
+			return false, false
+		}
+	}
+	for _, v := range other {
+		if v == onPresent[0] {
+			return false, false
+		}
+	}
+	return onPresent[0], true
 }
